@@ -67,6 +67,7 @@ pub fn gen_cfg(s: &mut Src, allow_fragment: bool) -> TreeCfg {
     cfg.srcdoc = s.chance(30);
     cfg.quirks0 = if s.chance(40) { s.below(3) as u8 } else { 0 };
     cfg.dsd_allow = s.chance(60);
+    cfg.dsd_succeed = cfg.dsd_allow && s.chance(110);
     cfg
 }
 
